@@ -87,6 +87,14 @@ func (w *world) obj(id int) interface{} {
 		return w.structObj(id, n.gotype)
 	case 'F':
 		o = newReflectObj(w, id, n.gotype)
+	case 'M':
+		// the values of one GraphQL type use different strategies: Resolver values and plain values
+		// found by reflection, side by side in one graph
+		if id%2 == 0 {
+			o = newNodeObj(w, id, n.gotype, true)
+		} else {
+			o = newReflectObj(w, id, n.gotype)
+		}
 	case 'A':
 		o = newNodeObj(w, id, n.gotype, false)
 	case 'R':
